@@ -21,6 +21,8 @@ class Facts:
             if p:
                 self.children.setdefault(p, []).append(f["id"])
         self.field_renames = canonicalise_fields(self)
+        self.new_helpers = find_new_helpers(self)
+        self._attr_cache = {}
 
     # ------------------------------------------------------------------ lookup
     def fn(self, fid):
@@ -40,12 +42,90 @@ class Facts:
                 out.extend(self.closures_of(c, True))
         return out
 
+    def attributed(self, fid):
+        """known root functions a body belongs to: itself, or — for a private function that the pinned tree does not have (a
+        helper introduced by a refactoring) — the known functions that call it, through chains of such helpers"""
+        r = self.root_fn(fid)
+        if r not in self.new_helpers:
+            return {r}
+        if r in self._attr_cache:
+            return self._attr_cache[r]
+        self._attr_cache[r] = set()       # cycle guard
+        out = set()
+        for c in self._callers_of_root(r):
+            out |= self.attributed(c)
+        self._attr_cache[r] = out or {r}
+        return self._attr_cache[r]
+
+    def _callers_of_root(self, rid):
+        if not hasattr(self, "_rcallers"):
+            m = {}
+            for fid, f in self.fns.items():
+                rf = self.root_fn(fid)
+                for b in f.get("blocks") or []:
+                    t = b.get("term") or {}
+                    if t.get("k") != "call":
+                        continue
+                    fn = (t.get("func") or {}).get("fn") or {}
+                    tgt = fn.get("resolved") or fn.get("path")
+                    if tgt in self.fns:
+                        m.setdefault(self.root_fn(tgt), set()).add(rf)
+                    # a function item passed as a value (e.g. `.map(helper)`)
+                    for a in t.get("args", []):
+                        d = (a.get("fn") or {}) if isinstance(a, dict) else {}
+                        v = d.get("resolved") or d.get("path")
+                        if v in self.fns:
+                            m.setdefault(self.root_fn(v), set()).add(rf)
+            self._rcallers = m
+        return {c for c in self._rcallers.get(rid, ()) if c != rid}
+
     def root_fn(self, fid):
         """The enclosing fn/method of a closure/coroutine."""
         f = self.fns[fid]
         while f.get("parent") in self.fns:
             f = self.fns[f["parent"]]
         return f["id"]
+
+
+_FNREF = None
+
+
+def _fnref():
+    global _FNREF
+    if _FNREF is None:
+        p = os.path.join(os.path.dirname(os.path.dirname(os.path.abspath(__file__))), "fn_reference.json")
+        _FNREF = json.load(open(p))["fns"] if os.path.exists(p) else {}
+    return _FNREF
+
+
+def _sig_key(fx, f):
+    owner = f.get("impl_self") or "::".join(f["id"].split("::")[:-1])
+    if f.get("impl_trait"):
+        owner += " as " + f["impl_trait"]
+    return "%s | (%s) -> %s" % (owner, ", ".join(f.get("inputs") or []), f.get("output"))
+
+
+def find_new_helpers(fx):
+    """root functions that the pinned tree does not have and that are not part of the crate's API: not in the reference by id,
+    not exported, and not merely a renamed reference function (same owner + signature as a reference function that is gone)"""
+    ref = _fnref()
+    if not ref or fx.crate != "chitchat":
+        return set()
+    roots = {fid: f for fid, f in fx.fns.items() if f["kind"] in ("fn", "method") and not f.get("parent")}
+    gone = {}
+    for rid, sk in ref.items():
+        if rid not in roots:
+            gone[sk] = gone.get(sk, 0) + 1
+    new = set()
+    for fid, f in sorted(roots.items()):
+        if fid in ref or f.get("exported") or f.get("impl_trait"):
+            continue
+        sk = _sig_key(fx, f)
+        if gone.get(sk, 0) > 0:
+            gone[sk] -= 1          # a rename of a known function
+            continue
+        new.add(fid)
+    return new
 
 
 _LAYOUT = None
